@@ -4,13 +4,19 @@
    the record half of the property (one alignment line, all 11 columns and all optional-field types),
    with float text as a Section oracle; the header half (NV.Sam.Header: @HD/@SQ/@RG/@PG/@CO lines with
    ordered tag maps, sam::io::Reader::read_header line handling and the duplicate-tag context);
-   and the SAM/BAM agreement for records without optional fields, by composition with the C05
-   BAM codec theorem.  NOT modelled: the BAM header block, optional fields on the BAM side, the lazy
-   sam::Record -- those are evaluated on the implementation only (harness kinds rt/hdr/lz). *)
+   every header the reader accepts satisfies the type-level premises, so parse -> write -> parse is
+   stable for every accepted text (NV.Sam.HeaderWfProofs); the BAM header block (NV.Sam.BamHeader:
+   magic, l_text, text read with the BAM reader's own line discipline and NUL padding, binary
+   reference dictionary, reconciliation of the two) with its write -> read identity; and the
+   SAM/BAM agreement for EVERY record of the data model (any optional fields, any CIGAR length) by
+   composition with the C05 BAM codec theorem.  The lazy sam::Record (NV.Sam.Lazy: field splitter,
+   bounds, the accessors of the eleven mandatory columns with their panics) is modelled and tied to
+   the implementation; its theorems are at the end of this file. *)
 From Coq Require Import List NArith ZArith Bool Lia.
 From NV Require Import Base.Decimal Base.DecimalProofs Sam.Fields Sam.FieldsProofs Sam.Record Sam.RecordProofs.
-From NV Require Import Sam.Header Sam.HeaderProofs Sam.BamAgree.
-From NV Require Bam.Record Bam.Encode Bam.Decode Bam.CodecProofs.
+From NV Require Import Sam.Header Sam.HeaderProofs Sam.HeaderWfProofs Sam.BamAgree.
+From NV Require Import Sam.BamHeader Sam.BamHeaderProofs Sam.Lazy Sam.LazyProofs Sam.LazyWritten.
+From NV Require Bam.Record Bam.Encode Bam.Decode Bam.CodecProofs Bam.AuxProofs.
 Import ListNotations.
 Open Scope N_scope.
 
@@ -163,6 +169,31 @@ Theorem c06_header_fixed_point :
 Proof. exact header_fixed_point. Qed.
 Print Assumptions c06_header_fixed_point.
 
+(* Every header the reader accepts satisfies wf_header -- the only part that parsing does not
+   guarantee is "a comment does not end in CR" (a line "@CO\tx\r\r\n" gives the comment "x\r") --
+   so the round trip applies to PARSED headers: for every accepted text, write-then-parse gives the
+   same header back and the written text is a fixed point. *)
+Theorem c06_header_parsed_wf : forall t h, read_header t = Some h -> co_no_cr h -> wf_header h.
+Proof. exact read_header_wf. Qed.
+Print Assumptions c06_header_parsed_wf.
+
+Theorem c06_header_parse_write_parse : forall t h t',
+  read_header t = Some h -> co_no_cr h -> write_header h = Some t' -> read_header t' = Some h.
+Proof. exact header_parse_write_parse. Qed.
+Print Assumptions c06_header_parse_write_parse.
+
+Theorem c06_header_parse_write_fixed : forall t h t' h',
+  read_header t = Some h -> co_no_cr h -> write_header h = Some t' ->
+  read_header t' = Some h' -> write_header h' = Some t'.
+Proof. exact header_parse_write_fixed. Qed.
+Print Assumptions c06_header_parse_write_fixed.
+
+(* and the premise is needed: the comment "x\r" is accepted, written, and read back as "x" *)
+Theorem c06_header_comment_cr_refuted : exists t h t',
+  read_header t = Some h /\ write_header h = Some t' /\ read_header t' <> Some h.
+Proof. exact header_comment_cr_refuted. Qed.
+Print Assumptions c06_header_comment_cr_refuted.
+
 Definition c06_example_header : header :=
   mkHeader (Some (mkHd 1 6 [((83,79), [117;110;107])]))
            [mkSq [99;104;114;49] 2147483647 [((77,53), [97;98])]; mkSq [50] 1 []]
@@ -206,7 +237,67 @@ Theorem c06_sam_bam_agree_partial :
 Proof. exact sam_bam_agree. Qed.
 Print Assumptions c06_sam_bam_agree_partial.
 
-(* ---- the complete property, kept visible; header and BAM parts are NOT proved (L3 only) *)
+(* ---- the BAM header block: "BAM\1", l_text, the SAM header text, n_ref, the binary reference
+   dictionary.  What bam::io::Writer::write_header emits, followed by any bytes (the records), is
+   read by bam::io::Reader::read_header as the same header, leaving exactly those bytes: the text
+   goes through the BAM reader's own line handling (NUL padding at a line start ends it, every
+   line is parsed), the binary dictionary is read into an insertion-ordered map and compared with
+   the @SQ lines pairwise by name and length. *)
+Theorem c06_bam_header_roundtrip : forall h bs rest,
+  wf_header h -> write_bam_header h = Some bs -> read_bam_header (bs ++ rest) = Ok (h, rest).
+Proof. exact bam_header_roundtrip. Qed.
+Print Assumptions c06_bam_header_roundtrip.
+
+(* SAM header vs BAM header of the same value: both read back equal *)
+Theorem c06_header_sam_bam_agree : forall h t bs rest,
+  wf_header h -> write_header h = Some t -> write_bam_header h = Some bs ->
+  read_header t = Some h /\ read_bam_header (bs ++ rest) = Ok (h, rest).
+Proof.
+  intros h t bs rest W HT HB. split; [exact (header_roundtrip h t W HT)|exact (bam_header_roundtrip h bs rest W HB)].
+Qed.
+Print Assumptions c06_header_sam_bam_agree.
+
+(* the reference loop of read_bam_header cannot run out of the fuel it is given *)
+Theorem c06_bam_refs_fuel : forall fuel cnt bs acc, (length bs < fuel)%nat ->
+  forall fuel', (length bs < fuel')%nat -> read_bam_refs fuel cnt bs acc = read_bam_refs fuel' cnt bs acc.
+Proof. exact read_refs_fuel. Qed.
+Print Assumptions c06_bam_refs_fuel.
+
+Example c06_bam_header_example :
+  exists bs, write_bam_header c06_example_header = Some bs /\
+             read_bam_header (bs ++ [1; 2; 3]) = Ok (c06_example_header, [1; 2; 3]) /\
+             (* a text without @SQ lines takes the binary dictionary over; NUL padding is skipped *)
+             read_bam_header [66;65;77;1; 6;0;0;0; 64;67;79;9;10;0; 1;0;0;0; 2;0;0;0; 97;0; 7;0;0;0]
+             = Ok (mkHeader None [mkSq [97] 7 []] [] [] [[]], []).
+Proof. eexists. split; [vm_compute; reflexivity|]. split; vm_compute; reflexivity. Qed.
+
+(* ---- SAM vs BAM for EVERY record (any optional fields, any number of CIGAR operations): the
+   record written as SAM text and parsed back (rs) and the same record written as a BAM block and
+   decoded (rb) are equal up to what the property allows: integer tags by value (by_value: the SAM
+   reader's smallest type, applied to the BAM side), the BAM base alphabet and the dropped user
+   CG field (Bam.CodecProofs.norm, applied to the SAM side).  wf_bits: an `A` value is a byte, a
+   float 32 bits (Rust types).  The single-score-9 class stays excluded (c06_record_roundtrip_refuted). *)
+Theorem c06_sam_bam_agree :
+  forall (fmt32 fmtd32 : N -> bytes) (parse32 : bytes -> option N) (parse32p : bytes -> option (N * bytes)),
+    (forall b, finite32 b = true -> parse32 (fmt32 b) = Some b) ->
+    (forall b, PR (fmt32 b)) ->
+    (forall b rest, finite32 b = true -> (rest = [] \/ exists r, rest = 44 :: r) ->
+                    parse32p (fmtd32 b ++ rest) = Some (b, rest)) ->
+    (forall b, PR (fmtd32 b)) ->
+    forall refs nref r t block,
+      wf_refs refs -> wf_rec r -> wf_bits r -> r_qual r <> [9] ->
+      write_record fmt32 fmtd32 refs r = Some t ->
+      Bam.Encode.encode nref (to_bam_d r) = Bam.Record.Ok block ->
+      exists rs rb, parse_line parse32 parse32p refs t = POk rs
+                    /\ Bam.Decode.decode block = Bam.Record.Ok rb
+                    /\ Bam.CodecProofs.norm (to_bam_d rs) = by_value rb.
+Proof. exact sam_bam_agree_data. Qed.
+Print Assumptions c06_sam_bam_agree.
+
+(* ---- the complete property as one statement, kept visible.  Its three conjuncts are now proved
+   separately for the concrete models (c06_header_roundtrip_partial, c06_record_roundtrip_partial,
+   c06_bam_header_roundtrip + c06_sam_bam_agree per record); what is NOT proved is the file-level
+   composition (a whole BAM stream = header block followed by framed records read in a loop). *)
 Section FullStatement.
   Variable header : Type.
   Variable write_header : header -> option bytes.
@@ -226,6 +317,58 @@ Section FullStatement.
     /\ (forall h rs h' rs', Forall wf_rec rs -> bam_roundtrip h rs = Some (h', rs') ->
           h' = h /\ map canon_bam rs' = map canon_bam (map norm_i rs)).
 End FullStatement.
+
+(* ---- the lazy sam::Record = the eager RecordBuf.  NV.Sam.Lazy.lazy_view = sam::io::Reader::
+   read_record (the field splitter filling one buffer and eleven end offsets, with its CR
+   handling as repaired in /repo 3506cd5) followed by every accessor of the eleven mandatory columns in order, each with its
+   error and its slice panic.  For EVERY line the eager parser accepts (POk r): no accessor errs
+   or panics, the eleven columns are r's, and Record::data() is exactly the tab-joined text of
+   the optional fields from which the eager parser produced r's data.  The one premise, canon_pos:
+   POS / PNEXT text denoting 0 must be the single character "0" -- the lazy accessor compares the
+   text with "0" and otherwise rejects a parsed 0 (Position::try_from), the eager parser takes
+   "00" or "+0" as missing (c06_lazy_pos_noncanonical_refuted).  noodles' own writer only emits
+   "0".  The typed lazy parsers of the optional fields (record/data/field/*.rs) are not modelled. *)
+Theorem c06_lazy_eq_eager : forall parse32 parse32p refs text r,
+  parse_line parse32 parse32p refs text = POk r ->
+  let fs := split_tab (line_of text) in
+  canon_pos (fld fs 3) -> canon_pos (fld fs 7) ->
+  lazy_view refs text = LOk (strip_data r) (join_tab (skipn 11 fs))
+  /\ parse_data_top parse32 parse32p (skipn 11 fs) = Some (r_data r).
+Proof. exact lazy_eq_eager. Qed.
+Print Assumptions c06_lazy_eq_eager.
+
+Theorem c06_lazy_pos_noncanonical_refuted : exists refs text r,
+  parse_line (fun _ => None) (fun _ => None) refs text = POk r /\ lazy_view refs text = LErr 3.
+Proof. exact lazy_pos_noncanonical_refuted. Qed.
+Print Assumptions c06_lazy_pos_noncanonical_refuted.
+
+(* written records: the line noodles writes for ANY valid record is read lazily as that record
+   (eleven columns; integer tags / the single score 9 as in c06_record_roundtrip_faithful), no
+   premise on the text: the writer renders positions with fmt_N, whose only text for 0 is "0" *)
+Theorem c06_lazy_written :
+  forall (fmt32 fmtd32 : N -> bytes) (parse32 : bytes -> option N) (parse32p : bytes -> option (N * bytes)),
+    (forall b, finite32 b = true -> parse32 (fmt32 b) = Some b) ->
+    (forall b, PR (fmt32 b)) ->
+    (forall b rest, finite32 b = true -> (rest = [] \/ exists r, rest = 44 :: r) ->
+                    parse32p (fmtd32 b ++ rest) = Some (b, rest)) ->
+    (forall b, PR (fmtd32 b)) ->
+    forall refs r t, wf_refs refs -> wf_rec r ->
+      write_record fmt32 fmtd32 refs r = Some t ->
+      lazy_view refs t = LOk (strip_data (norm_rec r)) (join_tab (skipn 11 (split_tab (line_of t))))
+      /\ parse_data_top parse32 parse32p (skipn 11 (split_tab (line_of t))) = Some (r_data (norm_rec r)).
+Proof. exact lazy_written. Qed.
+Print Assumptions c06_lazy_written.
+
+Example c06_lazy_example :
+  lazy_view [[99;104;114;49]]
+    [114;9;48;9;99;104;114;49;9;53;9;55;9;51;77;9;61;9;57;9;45;55;9;65;67;71;9;33;126;43;9;78;77;58;105;58;49;13;10]
+  = LOk (mkRec (Some [114]) 0 (Some 0) 5 7 [(0, 3)] (Some 0) 9 (-7)%Z [65;67;71] [0;93;10] [])
+        [78;77;58;105;58;49]
+  /\ (* a CR at the end of SEQ followed by an empty QUAL stays in SEQ (before /repo 3506cd5 it was
+        popped after the end offset of SEQ was recorded and sequence() panicked) *)
+  lazy_view [] [42;9;52;9;42;9;48;9;50;53;53;9;42;9;42;9;48;9;48;9;65;13;9;10]
+  = LOk (mkRec None 4 None 0 255 [] None 0 0%Z [65; 13] [] []) [].
+Proof. split; vm_compute; reflexivity. Qed.
 
 (* ---- non-vacuity: a mapped read with '=' mate, all premises hold, and the writer accepts it *)
 Example c06_example :
